@@ -418,7 +418,7 @@ func (w *World) callSSA(caller *frame, callpos token.Pos, fn *ssa.Function, args
 	if w.funcs != nil {
 		w.funcs[fn]++
 	}
-	fr.env = make(map[ssa.Value]value, 16)
+	fr.env = make(map[ssa.Value]value) // no size hint: most frames bind <= 8 values and then stay in one inline group
 	fr.block = fn.Blocks[0]
 	fr.locals = make([]value, len(fn.Locals))
 	for i, l := range fn.Locals {
